@@ -12,6 +12,7 @@
 -/
 import Golib.Gen.C13
 import Golib.Lists.Typed
+import Golib.Lists.Sort
 
 namespace C13Gen
 open Lists
@@ -109,5 +110,89 @@ theorem compareChild_dispatch : Gen.C13.compareChild =
 theorem create_inverts_getType : Gen.C13.create =
     [(1, "NewIntListDefault"), (2, "NewLongListDefault"), (3, "NewFloatListDefault"),
      (4, "NewDoubleListDefault"), (0, "NewStringListDefault")] := by decide
+
+/-! ### interpreted comparator code
+
+  The closures of Sorting / SortingAnyList, `CompareChild` and `compare.CompareToX` are compiled
+  from the Go statements (if/else, switch, assignments, returns) into Lean functions and proved
+  equal, for all inputs, to the functions the theorems of C13 are about. -/
+
+open Lists.Sort
+
+/-- the closure of `Sorting` is the model's `lessOneC`, for every comparison function and values -/
+theorem sorting_closures_are_model {α : Type} (cmp : α → α → Int) (asc : Bool) (v1 v2 : α) :
+    Gen.C13.IntList.sortingLess cmp asc v1 v2 = lessOneC cmp asc v1 v2 ∧
+    Gen.C13.LongList.sortingLess cmp asc v1 v2 = lessOneC cmp asc v1 v2 ∧
+    Gen.C13.FloatList.sortingLess cmp asc v1 v2 = lessOneC cmp asc v1 v2 ∧
+    Gen.C13.DoubleList.sortingLess cmp asc v1 v2 = lessOneC cmp asc v1 v2 ∧
+    Gen.C13.StringList.sortingLess cmp asc v1 v2 = lessOneC cmp asc v1 v2 := by
+  refine ⟨?_, ?_, ?_, ?_, ?_⟩ <;>
+    simp only [Gen.C13.IntList.sortingLess, Gen.C13.LongList.sortingLess,
+      Gen.C13.FloatList.sortingLess, Gen.C13.DoubleList.sortingLess,
+      Gen.C13.StringList.sortingLess, lessOneC] <;>
+    cases asc <;> simp <;> (try split) <;> simp_all
+
+/-- the closure of `SortingAnyList` is the model's `lessTwoC` -/
+theorem sortingAny_closures_are_model {α : Type} (cmp : α → α → Int) (asc : Bool)
+    (cc : Nat → Nat → Int) (k1 : Nat) (v1 : α) (k2 : Nat) (v2 : α) :
+    Gen.C13.IntList.sortingAnyLess cmp asc cc k1 v1 k2 v2 = lessTwoC cmp asc cc k1 v1 k2 v2 ∧
+    Gen.C13.LongList.sortingAnyLess cmp asc cc k1 v1 k2 v2 = lessTwoC cmp asc cc k1 v1 k2 v2 ∧
+    Gen.C13.FloatList.sortingAnyLess cmp asc cc k1 v1 k2 v2 = lessTwoC cmp asc cc k1 v1 k2 v2 ∧
+    Gen.C13.DoubleList.sortingAnyLess cmp asc cc k1 v1 k2 v2 = lessTwoC cmp asc cc k1 v1 k2 v2 ∧
+    Gen.C13.StringList.sortingAnyLess cmp asc cc k1 v1 k2 v2 = lessTwoC cmp asc cc k1 v1 k2 v2 := by
+  refine ⟨?_, ?_, ?_, ?_, ?_⟩ <;>
+    simp only [Gen.C13.IntList.sortingAnyLess, Gen.C13.LongList.sortingAnyLess,
+      Gen.C13.FloatList.sortingAnyLess, Gen.C13.DoubleList.sortingAnyLess,
+      Gen.C13.StringList.sortingAnyLess, lessTwoC] <;>
+    cases asc <;> simp <;> (repeat' split) <;> simp_all
+
+/-- each list type calls the comparison of its own element type, in both closures -/
+theorem closures_call_own_compare :
+    Gen.C13.IntList.compareFns = ["CompareToInt", "CompareToInt"] ∧
+    Gen.C13.LongList.compareFns = ["CompareToLong", "CompareToLong"] ∧
+    Gen.C13.FloatList.compareFns = ["CompareToFloat", "CompareToFloat"] ∧
+    Gen.C13.DoubleList.compareFns = ["CompareToDouble", "CompareToDouble"] ∧
+    Gen.C13.StringList.compareFns = ["CompareToString", "CompareToString"] := by decide
+
+/-- `compare.CompareToInt/Long/Float/Double` are the model's `cmp3`: with `l == r` read as
+    `l ≤ r ∧ r ≤ l` and `l > r` as `¬ l ≤ r` (true of Go's integers and of NaN-free floats) -/
+theorem compare_fns_are_cmp3 {α : Type} (le : α → α → Bool) (l r : α) :
+    Gen.C13.CompareToInt (fun a b => le a b && le b a) (fun a b => !le a b) l r = cmp3 le l r ∧
+    Gen.C13.CompareToLong (fun a b => le a b && le b a) (fun a b => !le a b) l r = cmp3 le l r ∧
+    Gen.C13.CompareToFloat (fun a b => le a b && le b a) (fun a b => !le a b) l r = cmp3 le l r ∧
+    Gen.C13.CompareToDouble (fun a b => le a b && le b a) (fun a b => !le a b) l r = cmp3 le l r ∧
+    Gen.C13.CompareToString_isStringsCompare = true := by
+  refine ⟨?_, ?_, ?_, ?_, by decide⟩ <;>
+    simp only [Gen.C13.CompareToInt, Gen.C13.CompareToLong, Gen.C13.CompareToFloat,
+      Gen.C13.CompareToDouble, cmp3] <;>
+    cases le l r <;> cases le r l <;> simp
+
+/-- what `CompareChild` is in the model: pick (comparison, getter) by the child's type code —
+    strings as strings, int/long exactly, the rest through float64 — and read it in the
+    direction `ord` -/
+def childDispatch (ty : Nat) (ord : Bool) (c : String → String → Nat → Nat → Int) (i1 i2 : Nat) : Int :=
+  let fg : String × String :=
+    if ty = 5 then ("CompareToString", "GetString")
+    else if ty = 1 ∨ ty = 2 then ("CompareToLong", "GetLong")
+    else ("CompareToDouble", "GetDouble")
+  if ord then c fg.1 fg.2 i1 i2 else c fg.1 fg.2 i2 i1
+
+/-- the compiled `CompareChild` equals that dispatch for every type code, direction, pair of
+    indices and every meaning of the comparison calls -/
+theorem compareChild_is_dispatch (ty : Nat) (ord : Bool) (c : String → String → Nat → Nat → Int)
+    (i1 i2 : Nat) : Gen.C13.compareChildF ty ord c i1 i2 = childDispatch ty ord c i1 i2 := by
+  simp only [Gen.C13.compareChildF, childDispatch]
+  cases ord <;> (repeat' split) <;> simp_all
+
+/-- … and the dispatch, with the comparison calls given their meaning (`cmp3` of the child's order
+    on the child's elements), is the model's `compareChild` -/
+theorem dispatch_is_model_compareChild {β : Type} (cle : β → β → Bool) (child : Nat → β)
+    (ty : Nat) (ord : Bool) (i1 i2 : Nat) :
+    childDispatch ty ord (fun _ _ a b => cmp3 cle (child a) (child b)) i1 i2 =
+      compareChild cle child ord i1 i2 := by
+  simp only [childDispatch, compareChild]
+
+example : childDispatch 2 false (fun f g a b => if f = "CompareToLong" ∧ g = "GetLong" then (a : Int) - b else 99) 3 5 = 2 := by
+  decide
 
 end C13Gen
